@@ -446,6 +446,24 @@ def run(ctx):
         if ctx.shard == 0:
             for dialect in dl:
                 judge(ctx, t, dialect, None, "equal-operands", unique=False)
+    # durations whose seconds carry fractions of every length (1..12 digits, leading / trailing
+    # zeros, next to whole minutes / hours / days, both signs): the interval in the SQL must
+    # denote exactly the literal's value, spelled as a plain number
+    durs = ["PT59.123456S", "PT3723.250001S", "P1DT2H3M4.000005S", "PT0.000001S", "PT0.5S", "PT1.50S", "PT59.999999S",
+            "PT0.000100S", "PT123456.789S", "P1DT0.1S", "-PT0.25S", "PT1.0S", "PT10.000000S", "PT0.123456789012S",
+            "PT0.1234567S", "P3DT0.000010S", "-P1DT2H3M4.5S", "PT100000.000001S", "PT9.87654321S", "PT0.05S"]
+    j = 0
+    for dlit in durs:
+        for op in ("add", "sub"):
+            for t in (("cmp", "gt", ("bin", op, T.ident("d_1"), T.lit("duration", dlit)), T.ident("d_2")),
+                      ("cmp", "eq", T.ident("d_1"), ("bin", op, T.ident("d_2"), T.lit("duration", dlit)))):
+                j += 1
+                if not ctx.mine(j):
+                    continue
+                for dialect in dl:
+                    for alias in (None, "tb"):
+                        ctx.cls("duration-fractions")
+                        judge(ctx, t, dialect, alias, "duration-fractions", unique=False)
     # signs in front of signed spellings: 1..3 unary minus over literals written with a sign
     # of their own, zero in all its spellings among them (value 0, text "-0"): the rendering
     # must never glue two signs into a comment marker
